@@ -1448,7 +1448,12 @@ func (g *gen) convert(x *ssa.Convert, st State, reach string) {
 		tb := to.(*types.Basic)
 		lo, hi := intRange(tb)
 		r := "(fp.to_real (fp.roundToIntegral RTZ " + v.T + "))"
-		g.ctx.assume("(=> (and (not (fp.isNaN " + v.T + ")) (not (fp.isInfinite " + v.T + ")) (<= " + smtInt(lo) + ".0 " + r + ") (<= " + r + " " + smtInt(hi) + ".0)) (= (to_real " + hv.T + ") " + r + "))")
+		g.ctx.assume("(=> (and (not (fp.isNaN " + v.T + ")) (not (fp.isInfinite " + v.T + ")) (<= (to_real " + smtInt(lo) + ") " + r + ") (<= " + r + " (to_real " + smtInt(hi) + "))) (= (to_real " + hv.T + ") " + r + "))")
+		if fs == "Float64" && tb.Kind() == types.Int64 {
+			// contracts of library functions returning floats speak about the truncated value via f2i()
+			g.ctx.declareOnce("f2i", "(declare-fun f2i (Float64) Int)")
+			g.ctx.assume("(= " + hv.T + " (f2i " + v.T + "))")
+		}
 		g.vals[x] = hv
 	case fs == "Float32" && ts == "Float64":
 		g.setVal(x, "((_ to_fp 11 53) RNE "+v.T+")")
